@@ -271,19 +271,21 @@ fn hash_free(defs: &BTreeMap<String, extract::Def>, root: &str) -> bool {
 // ------------------------------------------------------------------------------------------------
 const THREADS: usize = 16;
 const ROW_LIMIT: usize = 2000;
-const TEST_DIR: &str = "/repo/trustfall_core/test_data/tests";
+fn test_dir() -> String {
+    format!("{}/trustfall_core/test_data/tests", extract::default_repo())
+}
 
 fn load(dir: &str, stem: &str) -> Option<TestGraphQLQuery> {
     if !stem.bytes().all(|c| c.is_ascii_alphanumeric() || c == b'_' || c == b'-') {
         return None;
     }
-    let text = std::fs::read_to_string(format!("{TEST_DIR}/{dir}/{stem}.graphql.ron")).ok()?;
+    let text = std::fs::read_to_string(format!("{}/{dir}/{stem}.graphql.ron", test_dir())).ok()?;
     let t: TestGraphQLQuery = ron::from_str(&text).ok()?;
     (t.schema_name == "numbers").then_some(t)
 }
 
 fn stems(dir: &str) -> Vec<String> {
-    let mut names: Vec<String> = std::fs::read_dir(format!("{TEST_DIR}/{dir}"))
+    let mut names: Vec<String> = std::fs::read_dir(format!("{}/{dir}", test_dir()))
         .map(|d| d.filter_map(|e| e.ok()).map(|e| e.file_name().to_string_lossy().to_string()).collect())
         .unwrap_or_default();
     names.sort();
@@ -351,7 +353,7 @@ pub struct C24 {
 
 impl C24 {
     fn new() -> C24 {
-        let defs = extract::extract(extract::DEFAULT_REPO).unwrap_or_default();
+        let defs = extract::extract(&extract::default_repo()).unwrap_or_default();
         C24 {
             adapter: Arc::new(NumbersAdapter::new()),
             probes: probe_table().into_iter().collect(),
@@ -626,9 +628,9 @@ fn seed_n(n: &Sexp) -> Option<usize> {
 fn main() {
     let args: Vec<String> = std::env::args().collect();
     if args.get(1).map(|s| s.as_str()) == Some("gen-typedefs") {
-        let repo = args.get(2).map(|s| s.as_str()).unwrap_or(extract::DEFAULT_REPO);
+        let repo = args.get(2).cloned().unwrap_or_else(extract::default_repo);
         let out = args.get(3).map(|s| s.as_str()).unwrap_or(extract::DEFAULT_OUT);
-        match extract::generate(repo, out) {
+        match extract::generate(&repo, out) {
             Ok(n) => println!("gen-typedefs: {n} type definitions -> {out}"),
             Err(e) => {
                 eprintln!("gen-typedefs: {e}");
